@@ -3,6 +3,7 @@ import Holpy.C16.Gen
 import Holpy.C16.Proofs
 import Holpy.C16.OmegaSound
 import Holpy.C16.DarkShadow
+import Holpy.C16.SatMain
 /-
 C16 — property theorems.  Rows are omega.py factoids `[c₁,…,cₙ,c₀]` meaning `0 ≤ Σ cᵢ·xᵢ₋₁ + c₀`.
 `Sat rows v` : the integer assignment `v` satisfies every row.  `evalRowQ r v` : value of a row
@@ -103,8 +104,9 @@ example : (solveMatrix 5 [[1, 1, -3], [-1, 1, 0], [0, -1, 1]]).isContr = true :=
 /-- Dark-shadow lemma for the `combine_dark_factoid` that omega.py contains now (translated on
 every run): whenever the dark factoid of a lower bound `f1` and an upper bound `f2` on `xᵢ` holds
 under `v`, an integer value for `xᵢ` exists that satisfies `f1` and `f2` with the other variables
-unchanged (`upd v i x`).  This is the arithmetic core of the SAT side; the full `omega_sat_sound`
-(back-substitution through all levels of `solve`) is NOT proved — see the manifest. -/
+unchanged (`upd v i x`).  (Soundness of SAT answers does not need it — `extend_vmap` asserts
+`lower ≤ upper` — but it is the reason why that assertion cannot fail after a dark elimination with a
+single lower and a single upper bound.) -/
 theorem dark_shadow_sound (i : Nat) (f1 f2 r : Row) (v : Nat → Int)
     (h : Gen.combine_dark_factoid (i : Int) f1 f2 = some r) (hl : f1.length = f2.length)
     (hr : 0 ≤ evalRow r v) :
@@ -114,5 +116,18 @@ theorem dark_shadow_sound (i : Nat) (f1 f2 r : Row) (v : Nat → Int)
 -- omega_test.py's example: dark shadow of 2x+3y+4 ≥ 0 and -3x-4y+7 ≥ 0 on x is y+24 ≥ 0
 example : Gen.combine_dark_factoid 0 [2, 3, 4] [-3, -4, 7] = some [0, 1, 24] ∧
     0 ≤ evalRow [0, 1, 24] (fun _ => 0) := by decide
+
+/-- The model of `solve_matrix` (omega.py after fix C16-1; every fuel, every matrix whose rows have
+one common width) answers `Satisfiable s` only with an assignment that satisfies every input row
+(variables absent from the dict count as 0, as in `eval_factoid_rhs`): back-substitution through
+redundant-variable elimination, exact and dark elimination, one-variable analysis and the gcd
+normalisation of the input are all covered. -/
+theorem omega_sat_sound (fuel : Nat) (rows : List Row) (w : Nat) (hw : ∀ r ∈ rows, r.length = w)
+    (s : Store) (h : solveMatrix fuel rows = .sat s) : Sat rows s.get :=
+  solveMatrix_sat fuel rows w hw s h
+
+-- non-vacuity: omega_test.py systems (the second one needs a dark shadow: no unit coefficient)
+example : (solveMatrix 6 [[2, 3, 6], [-1, -4, 7]]).isSat = true := by decide
+example : (solveMatrix 6 [[2, 3, 4], [-3, -4, 7], [4, -5, -10]]).isSat = true := by decide
 
 end Holpy.C16
